@@ -1,22 +1,29 @@
-/- Driver commands tying the compression layer model to the real brotli through tables computed by
-   the harness with the `brotli` crate directly (never through `mla`). -/
+/- Driver commands for the compression layer model over REAL brotli streams: blocks are decoded by the
+   model's own RFC 7932 decoder (`MlaModel/Brotli`, `Codec.brotli`); the tables the harness computes with
+   the `brotli` crate directly (never through `mla`) are a cross-check of that decoder on exactly the
+   inputs used (`table_mismatch` must be 0). -/
 import Driver.Layers
 import MlaModel.Compress
 import MlaModel.CodecStored
+import MlaModel.CodecBrotli
 open Lean
 namespace Driver
 open MlaModel
 
-/-- a codec given by tables: `dec` = compressed block ↦ plaintext; `decStream` keyed by the LENGTH of
-    the remaining input (all inputs are suffixes of one byte string, so lengths identify them):
-    (plaintext decodable, number of bytes left after the first stream if it ends, invalid) -/
-def Codec.tables (blocks : List (Bytes × Bytes)) (streams : List (Nat × Bytes × Option Nat × Bool)) : Codec :=
-  { Codec.stored with
-    dec := fun c => (blocks.find? fun p => p.1 == c).map (·.2)
-    decStream := fun s =>
-      match streams.find? fun t => t.1 == s.length with
-      | some (_, out, rest, bad) => (out, rest.map fun k => s.drop (s.length - k), bad)
-      | none => ([], none, true) }
+/-- table entries (computed by the harness with the `brotli` crate) that the model's own decoder does
+    not reproduce: complete blocks -/
+def blockMismatches (blocks : List (Bytes × Bytes)) : Nat :=
+  (blocks.filter fun (c, p) => brotliDec false c != some p).length
+
+/-- … and stream prefixes, keyed by the LENGTH of the remaining input (all inputs are suffixes of one
+    byte string): (plaintext decodable, bytes left after the first stream if it ends, invalid).  For an
+    invalid stream only the verdict is compared (how much a decoder emits before it gives up is its own
+    business). -/
+def streamMismatches (s : Bytes) (streams : List (Nat × Bytes × Option Nat × Bool)) : Nat :=
+  (streams.filter fun (len, out, rest, bad) =>
+    let s' := s.drop (s.length - len)
+    let (o, r, b) := brotliDecStream false s'
+    if bad then !b else b || o != out || r.map (·.length) != rest).length
 
 def blocksOf (j : Json) : List (Bytes × Bytes) :=
   (getArr j "blocks").toList.map fun b => (getHex b "c", getHex b "p")
@@ -30,7 +37,8 @@ def streamsOf (j : Json) : List (Nat × Bytes × Option Nat × Bool) :=
 def cmdCompTrace (j : Json) : Json :=
   let P := paramsOf j
   let e := getHex j "stream"
-  let K := Codec.tables (blocksOf j) []
+  let K := Codec.brotli
+  let mism := blockMismatches (blocksOf j)
   match CompR.init (ι := Cur) ⟨e, 0⟩ with
   | .error er => Json.mkObj [("init", errJson er)]
   | .ok r0 =>
@@ -42,15 +50,16 @@ def cmdCompTrace (j : Json) : Json :=
       | none =>
         let (r', res) := CompR.readFull P K id 3 r (getNat x "n")
         (r', acc ++ [match res with | .ok b => Json.mkObj [("data", jhex b)] | .error er => errJson er])
-    Json.mkObj [("init", Json.str "ok"), ("results", Json.arr outs.toArray)]
+    Json.mkObj [("init", Json.str "ok"), ("results", Json.arr outs.toArray), ("table_mismatch", jnat mism)]
 
 /-- `comp.failsafe`: bytes handed to the fail-safe decompressor (+ stream table) → delivered bytes and
     whether it stops with an error -/
 def cmdCompFailsafe (j : Json) : Json :=
   let P := paramsOf j
   let s := getHex j "stream"
-  let K := Codec.tables [] (streamsOf j)
+  let K := Codec.brotli
   let (out, err) := fsDecomp P K (s.length + 1) s
-  Json.mkObj [("delivered", jhex out), ("err", Json.bool err)]
+  Json.mkObj [("delivered", jhex out), ("err", Json.bool err),
+              ("table_mismatch", jnat (streamMismatches s (streamsOf j)))]
 
 end Driver
